@@ -9,6 +9,7 @@ Case lines (shared with harness/c10):
   gop o<g> o<k> <op>            the same apply with command_giver = o<g> (if it is not destructed)
   adv <dt>
   sweep
+  setuniq <n>                   verif hook: handle serial := max serial n
 op syntax (comma separated): co,<fn>,<delay>,<tag> | cofp,<fn>,<delay>,<tag> | coa,.. | coafp,.. (extra arguments) | rmh,<tag> | rmn,<fn> | fh,<tag> | fn,<fn> | rmall |
   dest,o<k> | err | info | reload | usage
 -/
@@ -31,6 +32,8 @@ def parseOp (s : String) : Option Op :=
   -- `argmismatch` line (an `unexpected-line` verdict) when they arrive wrong; the model does not see them
   | ["coa", f, d, t] => do some (.co (← f.toNat?) (← d.toInt?) t false)
   | ["coafp", f, d, t] => do some (.co (← f.toNat?) (← d.toInt?) t true)
+  -- `cofpb`: function pointer with a bound first argument `(: fired, f :)`; for the model a function-pointer call_out
+  | ["cofpb", f, d, t] => do some (.co (← f.toNat?) (← d.toInt?) t true)
   | ["rmh", t] => some (.rmh t)
   | ["rmn", f] => do some (.rmn (← f.toNat?))
   | ["fh", t] => some (.fh t)
@@ -77,6 +80,10 @@ def parseLine (p : Parsed) (line : String) : Parsed :=
     | some d => { p with cmds := Cmd.adv d :: p.cmds }
     | none => { p with bad := line :: p.bad }
   | ["sweep"] => { p with cmds := Cmd.sweep :: p.cmds }
+  | ["setuniq", n] =>
+    match n.toNat? with
+    | some k => { p with cmds := Cmd.setUnique k :: p.cmds }
+    | none => { p with bad := line :: p.bad }
   | _ => if line.startsWith "#" then p else { p with bad := line :: p.bad }
 
 def parseCase (lines : List String) : Parsed :=
@@ -205,7 +212,7 @@ def judge (trace : List String) : List String :=
 def runModel (lines : List String) : List String :=
   let p := parseCase lines
   if !p.bad.isEmpty then p.bad.map (fun l => s!"bad-line {l}")
-  else (events (runCmds (scriptsOf p) World.init p.cmds)).map render
+  else (eventsC (runCmds (scriptsOf p) World.init p.cmds)).map render
 
 def runJudge (body : List String) : List String :=
   let (_input, impl) := splitJudge body
